@@ -208,6 +208,19 @@ impl Pager {
             .truncate(false)
             .open(&path)?;
 
+        // One handle at a time: two pagers (in this or another process) writing the same
+        // page file would corrupt it. The advisory lock is released when the file is closed.
+        match file.try_lock() {
+            Ok(()) => {}
+            Err(std::fs::TryLockError::WouldBlock) => {
+                return Err(Error::Io(io::Error::new(
+                    io::ErrorKind::WouldBlock,
+                    "database is already open (page file is locked by another handle)",
+                )));
+            }
+            Err(std::fs::TryLockError::Error(e)) => return Err(Error::Io(e)),
+        }
+
         if !existed || file.metadata()?.len() == 0 {
             let meta = Meta::new();
             let bitmap = Bitmap::new();
